@@ -151,6 +151,9 @@ found:
 	for iv := biv; iv <= eiv; iv++ {
 		if isZero(ref.Intervals[iv]) && !(i.zero.set && i.zero.ref == rid && i.zero.first <= iv && iv < i.zero.end) {
 			ref.Intervals[iv] = c.Begin
+			// The tile table changed: a query or a write made
+			// before this Add has left the index marked sorted.
+			i.IsSorted = false
 		}
 	}
 	if isZero(c.Begin) && !i.zero.set {
